@@ -193,12 +193,13 @@ theorem imin_le_right (a b : Int) : imin a b ≤ b := by unfold imin; split <;> 
 
 theorem addGraph_nocache (c : Cfg α) (text : List Nat) (t : Tot α) (g : Graph α)
     (hc : c.cacheOn = false) (ht : t.err = false) :
-    (addGraph c text t g).deltas = t.deltas ++ (oneGraph c g text).deltas.map (fun n => (g.gid, n)) ∧
-    (addGraph c text t g).pops = t.pops + (oneGraph c g text).pops ∧
-    (addGraph c text t g).props = t.props + (oneGraph c g text).props ∧
-    (addGraph c text t g).err = (oneGraph c g text).err := by
+    (addGraph c text t g).deltas = t.deltas ++ (oneGraph (leftCfg c t) g text).deltas.map (fun n => (g.gid, n)) ∧
+    (addGraph c text t g).pops = t.pops + (oneGraph (leftCfg c t) g text).pops ∧
+    (addGraph c text t g).props = t.props + (oneGraph (leftCfg c t) g text).props ∧
+    (addGraph c text t g).err = (oneGraph (leftCfg c t) g text).err := by
+  have hc' : (leftCfg c t).cacheOn = false := hc
   unfold addGraph
-  simp [hc, ht]
+  simp [hc', ht]
 
 
 theorem capCheck_pq_len (c : Cfg α) (st : St α) : (capCheck c st).pq.length = st.pq.length := by
